@@ -794,9 +794,11 @@ def compileAssign (pos : Pos) (lhs : List Expr) (nrhs : Nat) (rhsAct lhs0Act def
 /-- `compileFuncLit` around the body: `Fork(false)`, `SetParams`, the forked compiler, `Bytecode()`;
     returns the compiled function and the function's symbol table -/
 def withFn (pos : Pos) (variadic : Bool) (params : List String) (body : CM Unit) : CM (CFn × Table) := do
+  -- (the forked compiler is entered first: in Go the two compilers have separate instruction
+  -- buffers, and `Fork` / `SetParams` touch the symbol table only)
+  let outer ← enterFn variadic
   forkTable false
   setParams pos params
-  let outer ← enterFn variadic
   body
   let fn ← finishFn
   let ft ← leaveFn outer
